@@ -99,6 +99,8 @@ ObsUpgrade == IsUp /\ R.ret.tgt # 0 =>
                 /\ (~R.ret.ok => R.obj[R.ret.tgt].d)
                 /\ (R.ret.d0 => ~R.ret.ok)
                 /\ (R.ret.ok => R.ret.nout = 1 /\ Out(1).o = R.ret.tgt)
+                \* a success is linearized before destruction begins, and then keeps it from beginning
+                /\ (R.ret.ok => ~R.obj[R.ret.tgt].d /\ R.obj[R.ret.tgt].life = "live")
 ObsUpgradeNull == IsUp /\ R.ret.tgt = 0 => R.ret.ok /\ Out(1).o = 0
 \* C05: the flag is stable and set only at count zero
 ObsFlag == HasPrev => \A o \in 1..NO(Q) :
